@@ -258,6 +258,44 @@ Example C14_key_order_after_fix :
   /\ started_order (scenario_events kp0 0 None [] f8_ops) = [1; 2; 3].
 Proof. vm_compute. split; reflexivity. Qed.
 
+(* ---- the exit window of a worker the factory retires itself: worker 1's actor gets a slow post_stop
+   (OXGate), a shrink to 1 stops it, the pool grows back to 2 (a NEW actor, 2, is worker 1) while the
+   old actor still sits in its post_stop; job 2 runs on the new actor when the old one's termination
+   finally reaches the factory (OXRelease). The slot and the actor index were cleaned at the shrink, so
+   the late event concerns nobody: job 3 (same key) waits behind job 2 on the same incarnation. A
+   history in which the late event is taken for the new worker's death -- a replacement (actor 3)
+   starts job 3 next to job 2 -- is rejected. *)
+Definition shrink_window_ops :=
+  [OXGate 1; OResize 1; OResize 2; ODispatch 1 5 None false; ODispatch 2 6 None false; OXRelease 1;
+   ODispatch 3 6 None false; OQuery; OComplete 1; OQuery].
+Example C14_late_termination_of_retired_worker :
+  scenario_events sq_fix 2 None [] shrink_window_ops
+  = [[]; []; []; [EStart 1 0 0]; [EStart 2 1 2]; []; []; [EQDepth 0; EQActive 2; EQCap 0];
+     [EEnd 2 1 2; EStart 3 1 2]; [EQDepth 0; EQActive 2; EQCap 0]]
+  /\ check_C14 sq_fix 2 None shrink_window_ops (scenario_events sq_fix 2 None [] shrink_window_ops) = []
+  /\ check_C14 sq_fix 2 None shrink_window_ops
+       [[]; []; []; [EStart 1 0 0]; [EStart 2 1 2]; []; [EStart 3 1 3]; [EQDepth 0; EQActive 2; EQCap 0];
+        [EEnd 2 1 2]; [EQDepth 0; EQActive 2; EQCap 0]] = [ATwoAtOnce 1 6].
+Proof. vm_compute. repeat split; reflexivity. Qed.
+
+(* ---- no idle backlog, sticky queuer (judged where the model's own run is clean, lib/c14.py): both
+   workers busy, jobs 3 and 4 of key 3 wait in the factory queue; worker 0 finishes and takes job 3,
+   worker 1 finishes while the head's key runs on worker 0: job 4 goes to worker 0's queue and worker 1
+   is free again -- job 5 starts on it at once. A history in which job 5 stays in the factory queue
+   while worker 1 idles is rejected (by check_C13 as well: the job has no fate and nobody will give it one). *)
+Definition backlog_ops :=
+  [ODispatch 1 1 None false; ODispatch 2 2 None false; ODispatch 3 3 None false; ODispatch 4 3 None false;
+   OComplete 0; OComplete 1; OQuery; ODispatch 5 5 None false; OQuery].
+Example C14_sticky_freed_worker_takes_next :
+  scenario_events sq_fix 2 None [] backlog_ops
+  = [[EStart 1 0 0]; [EStart 2 1 1]; []; []; [EEnd 1 0 0; EStart 3 0 0]; [EEnd 2 1 1];
+     [EQDepth 0; EQActive 1; EQCap 1]; [EStart 5 1 1]; [EQDepth 0; EQActive 2; EQCap 0]]
+  /\ check_C14 sq_fix 2 None backlog_ops (scenario_events sq_fix 2 None [] backlog_ops) = []
+  /\ check_C14 sq_fix 2 None backlog_ops
+       [[EStart 1 0 0]; [EStart 2 1 1]; []; []; [EEnd 1 0 0; EStart 3 0 0]; [EEnd 2 1 1];
+        [EQDepth 0; EQActive 1; EQCap 1]; []; [EQDepth 1; EQActive 1; EQCap 1]] = [AIdleBacklog 8].
+Proof. vm_compute. repeat split; reflexivity. Qed.
+
 Print Assumptions C14_custom_in_pool.
 Print Assumptions C14_custom_empty_pool.
 Print Assumptions C14_key_persistent_hash_in_pool.
